@@ -287,7 +287,7 @@ class PrimaiteGame:
 
             # TODO: handle simulation defaults more cleanly
             if "node_start_up_duration" in defaults_config:
-                new_node.config.start_up_duration = defaults_config["node_startup_duration"]
+                new_node.config.start_up_duration = defaults_config["node_start_up_duration"]
             if "node_shut_down_duration" in defaults_config:
                 new_node.config.shut_down_duration = defaults_config["node_shut_down_duration"]
             if "node_scan_duration" in defaults_config:
